@@ -79,7 +79,7 @@ Theorem C15_literal : forall src rs a b,
 Proof. exact is_source_slice_literal_spec. Qed.
 Print Assumptions C15_literal.
 
-(** [iter_segments] as it was before fix 7ed96a0: mapping depending on earlier tokens, panics. *)
+(** [iter_segments] as it was before fix 7940035: mapping depending on earlier tokens, panics. *)
 Theorem C15_legacy_refuted_cursor :
   exists sl els gs, iter_segments_legacy false sl els = Some gs /\
     exists g, In g gs /\ map_spec sl (g_t0 g) (g_t1 g) <> Some (g_s0 g, g_s1 g).
